@@ -101,6 +101,53 @@ def validate_events(run, events, label, engine):
     return rej
 
 
+def apalache_inductive(run):
+    """Unbounded number of operations (3 threads, 3 blocks, sizes {1,2,3,6}, limit 5): AllocInd.IndInv (which contains the
+    accounting and limit clauses of C19) is an inductive invariant of the allocator's atomic steps - checked with Apalache:
+    initiation, consecution from an arbitrary state satisfying it, and the refutation of a mutated model (RUndo gives back
+    the old size) as the non-vacuity gate."""
+    import shutil
+    import subprocess
+    import time
+    out = vlib.workfile("apalache")
+    shutil.rmtree(out, ignore_errors=True)
+    os.makedirs(out)
+
+    def apa(module_path, init, length, expect_ok):
+        t0 = time.time()
+        cmd = ["apalache-mc", "check", "--cinit=ConstInit", "--init=" + init, "--inv=IndInv", "--length=%d" % length,
+               "--out-dir=" + os.path.join(out, "out"), module_path]
+        try:
+            p = subprocess.run(cmd, cwd=os.path.dirname(module_path), stdout=subprocess.PIPE, stderr=subprocess.STDOUT, text=True,
+                               timeout=1800, env=vlib.child_env())
+        except subprocess.TimeoutExpired:
+            raise vlib.ToolError("apalache-mc timed out on %s" % os.path.basename(module_path))
+        ok = "The outcome is: NoError" in p.stdout
+        bad = "The outcome is: Error" in p.stdout and "violated" in p.stdout
+        if not ok and not bad:
+            log(p.stdout[-3000:])
+            raise vlib.ToolError("apalache-mc failed on %s (%s)" % (os.path.basename(module_path), init))
+        if ok != expect_ok:
+            log(p.stdout[-3000:])
+            raise vlib.ToolError(("design: AllocInd.IndInv is not inductive (%s, length %d)" % (init, length)) if expect_ok else
+                                 "sanity: the mutated allocator model was NOT refuted by the inductive check")
+        return time.time() - t0
+
+    spec = os.path.join(vlib.SPEC, "AllocInd.tla")
+    t1 = apa(spec, "Init", 0, True)
+    t2 = apa(spec, "IndInit", 1, True)
+    text = open(spec).read().replace("MODULE AllocInd ", "MODULE AllocIndMut ")
+    head, tail = text.split("RUndo(t) ==", 1)
+    tail = tail.replace("used' = used - loc[t].size", "used' = used - loc[t].old", 1)
+    mut = os.path.join(out, "AllocIndMut.tla")
+    open(mut, "w").write(head + "RUndo(t) ==" + tail)
+    t3 = apa(mut, "IndInit", 1, False)
+    run.note("apalache_inductive_invariant", {"module": "AllocInd.tla", "constants": "Threads={1,2,3} Blocks={1,2,3} Sizes={1,2,3,6} Limit=5",
+             "initiation_s": round(t1, 1), "consecution_s": round(t2, 1), "mutant_refuted_s": round(t3, 1),
+             "meaning": "Accounting and WithinLimit hold after any number of operations (TLC bounds MaxOps)"})
+    shutil.rmtree(out, ignore_errors=True)
+
+
 def run(tier, seed):
     run = vlib.Run(PROP, tier, seed, "model_checking")
     run.cov["rule"] = ("G: every single-thread operation sequence of the TLC model up to MaxOps over "
@@ -130,6 +177,9 @@ def run(tier, seed):
     if r.invariant_violated != "PeakOK":
         raise vlib.ToolError("sanity: the unrepaired realloc model should violate PeakOK")
     run.note("sanity_unfixed_model", "PeakOK violated as expected (%d states)" % r.distinct)
+
+    if thorough:
+        apalache_inductive(run)
 
     # ---- G: every sequential sequence
     cfg = "MC_Alloc_gen5" if thorough else "MC_Alloc_gen"
